@@ -771,11 +771,12 @@ def _counting_while(n: ast.While) -> bool:
     tested = {ast.unparse(x) for x in ast.walk(n.test) if isinstance(x, (ast.Name, ast.Attribute))}
     for b in n.body:
         for x in ast.walk(b):
-            tg = x.targets if isinstance(x, ast.Assign) else [x.target] if isinstance(x, (ast.AugAssign, ast.AnnAssign)) else []
-            for t in tg:
-                for y in (t.elts if isinstance(t, (ast.Tuple, ast.List)) else [t]):
-                    if ast.unparse(y) in tested:
-                        return True
+            # a counter: `k -= 1`, `k += 1`, `k = k - 1` on a compared name (not `c = recv()`: that loop has no static bound)
+            if isinstance(x, ast.AugAssign) and isinstance(x.op, (ast.Add, ast.Sub)) and ast.unparse(x.target) in tested:
+                return True
+            if isinstance(x, ast.Assign) and len(x.targets) == 1 and ast.unparse(x.targets[0]) in tested and isinstance(x.value, ast.BinOp) \
+                    and isinstance(x.value.op, (ast.Add, ast.Sub)) and ast.unparse(x.targets[0]) in {ast.unparse(y) for y in ast.walk(x.value)}:
+                return True
     return False
 
 
